@@ -725,6 +725,28 @@ pub fn text_families(tier: Tier) -> Vec<TextFamily> {
             }),
         });
     }
+    // (vi) colour lists: 0..12 combo colours given through repeated and numbered keys, with and without custom colours
+    {
+        fams.push(TextFamily {
+            name: "[Colours] with 0..12 combo colours (repeated keys) x custom colours x a second [Colours] section",
+            total: 13 * 2 * 2,
+            gen: Box::new(move |idx| {
+                let (n, custom, split) = ((idx % 13) as usize, (idx / 13) % 2 == 1, idx / 26 == 1);
+                let mut s = String::from("osu file format v14\n[General]\nMode: 0\n[Colours]\n");
+                for k in 0..n {
+                    if split && k == n / 2 {
+                        s.push_str("[Metadata]\nTitle:t\n[Colours]\n");
+                    }
+                    s.push_str(&format!("Combo{} : {},{},{}\n", 1 + k % 5, 10 * k, 255 - 3 * k, k));
+                }
+                if custom {
+                    s.push_str("SliderBorder : 1,2,3\nCombo : 7,7,7\nOther : 9,8,7\n");
+                }
+                s.push_str("[HitObjects]\n10,20,100,1,0\n");
+                s
+            }),
+        });
+    }
     // bundled files
     {
         let files: Vec<String> = crate::env::bundled_files().into_iter().map(|(_, b)| crate::env::text_of(&b)).collect();
